@@ -68,6 +68,10 @@ EXPLANATION += (
     ' The mean profile of a node is S / N of the summed statistics (R-ARITH/moments, rule of C11).'
 )
 
+EXPLANATION += (
+    ' Round 10: the sentinel / row-position rules of C09 are shared.'
+)
+
 RULE_TEXT = (
     "one obligation per (file kind, reader, required dataset), per "
     "provenance relation; non-trivial when the reader requires at least "
